@@ -93,7 +93,7 @@ Definition app_claim (i : nat) (k : key) (g : obj -> obj) (st : state) : state :
 
 (* ---- detach / expunge ------------------------------------------------------------------------- *)
 Definition detach_obj (to_transient : bool) (o : obj) : obj :=
-  let o1 := set_sess false o in if to_transient then set_key None o1 else o1.
+  let o1 := set_sess false o in if to_transient then set_del false (set_key None o1) else o1.
 Definition expunge_pre (has_tx : bool) (o : obj) : obj :=
   if inew o then set_inew false o
   else if iimap o then set_isdel false (set_iimap false o)
@@ -148,12 +148,13 @@ Fixpoint fold_err (f : nat -> state -> state * Z) (l : list nat) (st : state) : 
   end.
 Definition restore_expunge_obj (has_tx : bool) (o : obj) : obj :=
   if itnew o || inew o then expunge_obj has_tx true o else o.
-(* "for s, (oldkey, newkey) in self._key_switches.items()": safe_discard, restore the key, replace unless expunged *)
+(* "for s, (oldkey, newkey) in self._key_switches.items()": skip what was expunged as new; else safe_discard,
+   restore the key, replace *)
 Definition unswitch_one (i : nat) (st : state) : state :=
   match oksw (get st i) with
   | None => st
   | Some old =>
-      if itnew (get st i) then app_all (only i (fun o => set_key (Some old) (set_iimap false o))) st
+      if itnew (get st i) then st   (* added in this transaction: transient again, no key to restore *)
       else flag_bad (negb (osess (get st i))) (app_claim i old (fun o => set_iimap true (set_key (Some old) o)) st)
   end.
 Definition restore_snapshot (st : state) : state * Z :=
@@ -355,6 +356,12 @@ Definition do_get (e : env) (k : key) (st : state) : result :=
         if Z.eqb c 5 then gone st1                                 (* ObjectDeletedError out of the autoflush *)
         else if negb (Z.eqb c 0) then ret st1 c
         else if negb (memz (key_pk (get st1 h)) rws) then gone st1 (* the row is gone *)
+        else if odel (get st1 h) then
+          (* the autoflush deleted this instance: whatever the map holds now, else a SELECT by primary key *)
+          match holder k st1 with
+          | Some h' => mkRes st1 0 [h'] false
+          | None => get_miss (with_rows e rws) k st1
+          end
         else mkRes st1 0 [h] false
   end.
 
